@@ -1,4 +1,4 @@
-import ArrProofs.Lemmas.C19Axis
+import ArrProofs.Lemmas.C19Along
 /-!
 # C19 — bit unpacking and packing are inverse; `binary_repr` parses back
 
@@ -6,13 +6,14 @@ Property theorems only (helpers in `ArrProofs/Lemmas/C19.lean`).  Model under te
 (`toBitOrder`, `unpackByte`, `unpackFlat`, `unpackFlatArr`, `unpackLane`, `packGroup`, `pad8`, `packFlat`,
 `packFlatArr`, `packLane`, `unpackBits`, `packBits`, `binaryRepr`, `binaryReprSigned`).
 
-Scope of this file: the flat form (`axis = None`), the lane functions handed to `apply_along_axis`, the
-lifting of the lane round trip through *any* `apply_along_axis` that maps lanes independently (`AlongLifts`,
-the obligation the shared axis model discharges for the crate's pipeline), and the complete axis statements
-for the coordinate-level reference semantics `alongRef` (which satisfies `AlongLifts`, `alongRef_lifts`).
-Not in this file: that the crate's `apply_along_axis` *pipeline* (moveaxis / ravel / split / reshape / moveaxis
-back) equals `alongRef` — that is the shared axis model's `applyAlongAxis_spec` (the pinned tree violates it for
-rank ≥ 4); here the axis forms are tied to the crate differentially, through `alongRef`, on rank ≤ 3.
+Scope of this file: the flat form (`axis = None`); the lane functions handed to `apply_along_axis`; the lifting
+of the lane round trip through *any* `apply_along_axis` that satisfies `AlongLifts`; and the axis forms exactly as
+`binary_bits.rs` wraps them — `normalize_axis`, then `apply_along_axis` with the flat lane function — for
+* `alongPipe` = the shared pipeline model `Arr.applyAlongAxis` of the crate's (repaired) `apply_along_axis`
+  (moveaxis / ravel / split / map / reshape / move back), via the central lemma `applyAlongAxis_spec`
+  (`pack_unpack_axis`, `unpack_axis_at`, `pack_axis_at`), and
+* `alongRef` = a coordinate-level reference lane semantics (`pack_unpack_axis_ref`, `unpack_axis_ref`).
+The driver runs both and reports a split, so their agreement is part of the tie.
 -/
 namespace ArrModel.C19
 open ArrModel
@@ -188,6 +189,22 @@ theorem pack_unpack_flat_arr (along : Along) (a : Arr Nat) (ord : Option Spellin
   simp only [packLane] at hl
   exact hl
 
+/-- unpacking a non-empty lane (no `count`) always succeeds with `8·n` bits -/
+theorem unpackLane_flat (o : BitOrder) (l : List Nat) (hl : l ≠ []) :
+    unpackLane o none (Arr.flat l) = .ok (Arr.flat (unpackFlat o l)) := by
+  have he : (Arr.flat l).isEmpty = false := by simpa [Arr.isEmpty, Arr.flat] using hl
+  simp only [unpackLane, he, Bool.false_eq_true, if_false]
+  simpa [Arr.flat] using unpack_flat_arr o (Arr.flat l)
+
+/-- packing a non-empty lane always succeeds (whatever the values) with `⌈len / 8⌉` bytes -/
+theorem packLane_flat (o : BitOrder) (l : List Nat) (hl : l ≠ []) :
+    ∃ r : List Nat, packFlat o l = .ok r ∧ r.length = (l.length + 7) / 8 ∧ packLane o (Arr.flat l) = .ok (Arr.flat r) := by
+  obtain ⟨r, hr⟩ := packFlat_total o l
+  have he : (Arr.flat l).isEmpty = false := by simpa [Arr.isEmpty, Arr.flat] using hl
+  refine ⟨r, hr, packFlat_length o l r hr, ?_⟩
+  rw [packLane, if_neg (by simp [he])]
+  simp only [packFlatArr, Arr.flat, hr, Res.bind_ok]
+
 /-- the two lane functions form an inverse pair in the sense `AlongLifts` asks for: a lane of `n > 0` bytes
 goes to a 1-D array of `8·n` bits and comes back -/
 theorem lane_pair (o : BitOrder) (l : List Nat) (hl : l ≠ []) (h : ∀ b ∈ l, b < 256) :
@@ -216,26 +233,106 @@ theorem axis_len_pos (a : Arr Nat) (k : Nat) (hwf : a.WF) (hk : k < a.ndim) (hne
 
 /-- **round trip along an axis**, for any `apply_along_axis` satisfying `AlongLifts`: same axis, same order ⇒
 the original bytes *and shape* -/
-theorem pack_unpack_axis (along : Along) (a : Arr Nat) (ax : Int) (ord : Option Spelling) (o : BitOrder)
+theorem pack_unpack_axis_of_lifts (along : Along) (a : Arr Nat) (ax : Int) (ord : Option Spelling) (o : BitOrder)
     (ho : optOrder ord = .ok o) (hwf : a.WF) (hk : normalizeAxis a.ndim ax < a.ndim) (hne : a.isEmpty = false)
     (h : ∀ b ∈ a.elems, b < 256) (hal : AlongLifts along a (normalizeAxis a.ndim ax)) :
     (unpackBits along a (some ax) none ord >>= fun u => packBits along u (some ax) ord) = .ok a := by
   have hn := axis_len_pos a _ hwf hk hne
+  have hne' : ∀ (l : List Nat) (n : Nat), 0 < n → l.length = n → l ≠ [] :=
+    fun l n hn hl e => by have h0 : l.length = 0 := (by simp [e]); omega
   obtain ⟨u, hu, hnd, hue, hback⟩ := hal (unpackLane o none) (packLane o) (8 * a.shape.getD (normalizeAxis a.ndim ax) 0)
     (by omega)
     (fun l hl hmem => by
-      have hl0 : l ≠ [] := fun e => by have h0 : l.length = 0 := (by simp [e]); omega
-      obtain ⟨h1, h2, h3⟩ := lane_pair o l hl0 (fun b hb => h b (hmem b hb))
+      obtain ⟨h1, h2, h3⟩ := lane_pair o l (hne' l _ hn hl) (fun b hb => h b (hmem b hb))
       exact ⟨unpackFlat o l, by rw [h1, hl], h2, h3⟩)
+    (fun l hl => ⟨_, unpackLane_flat o l (hne' l _ hn hl), by simp [Arr.flat, unpackFlat_length, hl]⟩)
+    (fun l hl => by
+      obtain ⟨r, _, hr2, hr3⟩ := packLane_flat o l (hne' l _ (by omega) hl)
+      exact ⟨_, hr3, by simp only [Arr.flat]; rw [hr2, hl]; omega⟩)
   simp only [unpackBits, hne, ho, hu, Res.bind_ok, packBits, hue, hnd, Bool.false_eq_true, if_false]
   exact hback
 
-/-- **round trip along every axis for the reference lane semantics** (no side condition on the axis machinery) -/
+/-- a well-formed array without a zero-length axis is not empty -/
+theorem not_empty_of_no_zero_axis (a : Arr Nat) (hwf : a.WF) (hnz : 0 ∉ a.shape) : a.isEmpty = false := by
+  have : 0 < a.shape.prod := prod_pos_of_not_mem _ hnz
+  rw [← hwf] at this
+  simp only [Arr.isEmpty, beq_eq_false_iff_ne, ne_eq]; omega
+
+/-- **C19, axis form, on the model of the crate's own `apply_along_axis` pipeline**: packing what was unpacked
+along the same axis with the same order returns the original bytes and the original shape — every rank, every
+axis (either spelling), both orders (any accepted spelling), all byte values. -/
+theorem pack_unpack_axis (a : Arr Nat) (ax : Int) (ord : Option Spelling) (o : BitOrder)
+    (ho : optOrder ord = .ok o) (hwf : a.WF) (hnz : 0 ∉ a.shape) (hk : normalizeAxis a.ndim ax < a.ndim)
+    (h : ∀ b ∈ a.elems, b < 256) :
+    (unpackBits alongPipe a (some ax) none ord >>= fun u => packBits alongPipe u (some ax) ord) = .ok a :=
+  pack_unpack_axis_of_lifts alongPipe a ax ord o ho hwf hk (not_empty_of_no_zero_axis a hwf hnz) h
+    (alongPipe_lifts a _ hwf hk hnz)
+
+/-- **unpacking along an axis, per coordinate** (pipeline model): the axis becomes eight times as long, the other
+axes are kept, and the element at coordinate `c` is bit `c[axis]` of the flat unpacking of the lane through `c` —
+i.e. bit `c[axis] % 8` of the byte at position `c[axis] / 8` of that lane (`unpack_flat_at`). -/
+theorem unpack_axis_at (a : Arr Nat) (ax : Int) (ord : Option Spelling) (o : BitOrder)
+    (ho : optOrder ord = .ok o) (hwf : a.WF) (hnz : 0 ∉ a.shape) (hk : normalizeAxis a.ndim ax < a.ndim) :
+    ∃ u, unpackBits alongPipe a (some ax) none ord = .ok u ∧
+      u.shape = a.shape.set (normalizeAxis a.ndim ax) (8 * a.shape.getD (normalizeAxis a.ndim ax) 0) ∧ u.WF ∧
+      ∀ c, inRange u.shape c = true →
+        u.get? c = (unpackFlat o (laneOf a (normalizeAxis a.ndim ax) c))[c.getD (normalizeAxis a.ndim ax) 0]? := by
+  have hne := not_empty_of_no_zero_axis a hwf hnz
+  have hn := axis_len_pos a _ hwf hk hne
+  have hne' : ∀ (l : List Nat), l.length = a.shape.getD (normalizeAxis a.ndim ax) 0 → l ≠ [] :=
+    fun l hl e => by have h0 : l.length = 0 := (by simp [e]); omega
+  obtain ⟨u, hu, hs, huwf, hget⟩ := applyAlongAxis_spec a 0 0 (normalizeAxis a.ndim ax)
+    (8 * a.shape.getD (normalizeAxis a.ndim ax) 0) (unpackLane o none) hwf hk hnz
+    (fun l hl => ⟨_, unpackLane_flat o l (hne' l hl), by simp [Arr.flat, unpackFlat_length, hl]⟩)
+  refine ⟨u, by simp only [unpackBits, hne, ho, Bool.false_eq_true, if_false]; exact hu, hs, huwf, ?_⟩
+  intro c hc
+  obtain ⟨y, hy1, hy2⟩ := hget c hc
+  have hL : (laneOf a (normalizeAxis a.ndim ax) c).length = a.shape.getD (normalizeAxis a.ndim ax) 0 :=
+    laneOf_length a _ _ c hwf (by rw [← hs]; exact hc)
+  rw [unpackLane_flat o _ (hne' _ hL)] at hy1
+  cases hy1
+  exact hy2
+
+/-- **packing along an axis, per coordinate** (pipeline model): the axis shrinks to `⌈n / 8⌉`, and the element at
+coordinate `c` is byte `c[axis]` of the flat packing of the lane through `c` -/
+theorem pack_axis_at (a : Arr Nat) (ax : Int) (ord : Option Spelling) (o : BitOrder)
+    (ho : optOrder ord = .ok o) (hwf : a.WF) (hnz : 0 ∉ a.shape) (hk : normalizeAxis a.ndim ax < a.ndim) :
+    ∃ u, packBits alongPipe a (some ax) ord = .ok u ∧
+      u.shape = a.shape.set (normalizeAxis a.ndim ax) ((a.shape.getD (normalizeAxis a.ndim ax) 0 + 7) / 8) ∧ u.WF ∧
+      ∀ c, inRange u.shape c = true → ∃ r, packFlat o (laneOf a (normalizeAxis a.ndim ax) c) = .ok r ∧
+        u.get? c = r[c.getD (normalizeAxis a.ndim ax) 0]? := by
+  have hne := not_empty_of_no_zero_axis a hwf hnz
+  have hn := axis_len_pos a _ hwf hk hne
+  have hne' : ∀ (l : List Nat), l.length = a.shape.getD (normalizeAxis a.ndim ax) 0 → l ≠ [] :=
+    fun l hl e => by have h0 : l.length = 0 := (by simp [e]); omega
+  obtain ⟨u, hu, hs, huwf, hget⟩ := applyAlongAxis_spec a 0 0 (normalizeAxis a.ndim ax)
+    ((a.shape.getD (normalizeAxis a.ndim ax) 0 + 7) / 8) (packLane o) hwf hk hnz
+    (fun l hl => by
+      obtain ⟨r, _, hr2, hr3⟩ := packLane_flat o l (hne' l hl)
+      exact ⟨_, hr3, by simp only [Arr.flat]; rw [hr2, hl]⟩)
+  refine ⟨u, by simp only [packBits, hne, ho, Bool.false_eq_true, if_false]; exact hu, hs, huwf, ?_⟩
+  intro c hc
+  obtain ⟨y, hy1, hy2⟩ := hget c hc
+  have hL : (laneOf a (normalizeAxis a.ndim ax) c).length = a.shape.getD (normalizeAxis a.ndim ax) 0 :=
+    laneOf_length a _ _ c hwf (by rw [← hs]; exact hc)
+  obtain ⟨r, hr1, _, hr3⟩ := packLane_flat o _ (hne' _ hL)
+  rw [hr3] at hy1
+  cases hy1
+  exact ⟨r, hr1, hy2⟩
+
+/-- an axis outside the rank is an error value in both operations (pipeline model) -/
+theorem axis_out_of_range (a : Arr Nat) (ax : Int) (count : Option Int) (ord : Option Spelling) (o : BitOrder)
+    (ho : optOrder ord = .ok o) (hne : a.isEmpty = false) (hk : a.ndim ≤ normalizeAxis a.ndim ax) :
+    unpackBits alongPipe a (some ax) count ord = .err .AxisOutOfBounds ∧
+    packBits alongPipe a (some ax) ord = .err .AxisOutOfBounds := by
+  simp [unpackBits, packBits, hne, ho, alongPipe, applyAlongAxis_axis_err _ _ _ _ _ hk]
+
+/-- **round trip along every axis for the reference lane semantics** -/
 theorem pack_unpack_axis_ref (a : Arr Nat) (ax : Int) (ord : Option Spelling) (o : BitOrder)
     (ho : optOrder ord = .ok o) (hwf : a.WF) (hk : normalizeAxis a.ndim ax < a.ndim) (hne : a.isEmpty = false)
     (h : ∀ b ∈ a.elems, b < 256) :
     (unpackBits alongRef a (some ax) none ord >>= fun u => packBits alongRef u (some ax) ord) = .ok a :=
-  pack_unpack_axis alongRef a ax ord o ho hwf hk hne h (alongRef_lifts a _ hwf hk hne)
+  pack_unpack_axis_of_lifts alongRef a ax ord o ho hwf hk hne h (alongRef_lifts a _ hwf hk hne)
 
 /-- **what unpacking along an axis is** (reference lane semantics): the axis becomes eight times as long, every
 other axis is kept, and every lane along the axis is replaced by its flat unpacking -/
